@@ -9,6 +9,7 @@ import sys as _sys
 from .. import common
 from ..common import log
 from . import c08_esc
+from . import c08_quote
 
 # ---------------------------------------------------------------------------------------------
 # formula trees: ('i', n) ('f', n64) ('s', text) ('u', op, e) ('b', op, l, r) ('c', fn, [args])
@@ -1132,6 +1133,8 @@ def run(args):
                     eg.dist[k] = eg.dist.get(k, 0) + v
             dist["escape_constants"] = eg.dist
             n_eval += literal_sweep(bdir, wd, common.rng_for(args.seed, "C08lit"), args.tier, stats, dist, spec_fail, corr_fail, samples)
+            # ---- constants of every notation inside formulas and operand lists, on the targets with a QualifyQuote callback and a few more
+            n_eval += c08_quote.run(_sys.modules[__name__], bdir, wd, quirks, args.seed, args.tier, stats, dist, spec_fail, corr_fail, samples, proof_problems)
 
     res.coverage = common.proof_coverage(audit, "C08", [
         "translate/tables.py gen_operators/gen_intformats (static dumpers linked with operator.c.o/function.c.o of the current build; intformat.c included)",
@@ -1141,6 +1144,10 @@ def run(args):
         "string constants: C08_strings_numeric_escape / _escape_width / _value / _scan / _lex (Props/C08_Strings.lean) tie ProcessBk, ConstStringVal and the quote scan to the "
         "SPEC's item lists for every well-formed constant (proved; the value of the formula inside \\{...} is a hypothesis there and part of the differential test); "
         "escape constants in formulas and in DB statements, and the rank-discriminating formulas, are the differential part",
+        "constants inside formulas: C08_quote_open_constant_qualified / _scan_one_token / _split_one_token (Props/C08_Quote.lean) - for every digit string of the base "
+        "the QualifyQuote_SingleQuoteConstant model reports the apostrophe of an open IBM constant as no string delimiter, so the operator scan and the comma search go on behind "
+        "it (proved); model callback = SPEC predicate openIbmAt at every apostrophe of every generated text (checked by the driver, field qual), character loop of EvalStrExpression / "
+        "QuotPosCore with the callback vs real asl, and the SPEC's fold over the manual's notation table vs real asl are the differential part",
         "Lean `Float` (opaque to the kernel) for float-valued cases: structural only, compared with 1e-9 relative tolerance"])
     dist.update(stats)
     by_sig = {}
@@ -1160,6 +1167,11 @@ def run(args):
              "(abbreviations in both cases, decimal / \\x hexadecimal / \\0 octal numbers with every digit count, followed by digits, hex letters, other characters, escapes or the end "
              "of the constant, \\{expr}) under STRLEN, CHARFROMSTR, SUBSTR, STRSTR, UPSTRING/LOWSTRING, comparisons, concatenation, conversion to integer, and as DB operands; "
              "for every ordered pair of operators both groupings of `a op1 b op2 c` / `op a op2 b` with operands that give the groupings different values; "
+             "constants inside formulas and operand lists (vlib/props/c08_quote.py): every enabled integer notation - the IBM forms with and without closing "
+             "apostrophe on H8/300, H8/500, NS32000, SC/MP (QualifyQuote_SingleQuoteConstant), closed forms and the C/Motorola/Intel notations on 68000, 6809, Z80 "
+             "(QualifyQuote_Z80), 8051, 8086, AVR - followed by each of the 22 dyadic operators, preceded by operators and by sign / complement, in chains, in front of a "
+             "closing parenthesis, next to character constants, alone, and as operands of DB / DC.B / FCB lists (comma and further operand behind the constant), with random "
+             "digit strings of the base that contain its largest digit in most cases, both cases of marker letters and digits, RELAXED ON / INTSYNTAX +/-, RADIX 10/16/8/2/random; "
              "non-trivial = contains an operator or call; distinct by rendered text",
         samples=samples, distribution=dist)
     res.assumptions = ["the text sent to the real assembler is produced by the Lean SPEC `render`; the Lean model tokenises that same text",
@@ -1172,6 +1184,10 @@ def run(args):
                        "(CHARFROMSTR results 2^64-128..2^64-1 inside the string are taken modulo 256 there: finding charfromstr-8bit-character-negative is judged on formulas that call CHARFROMSTR)",
                        "READING: the formula inside \\{...} of a string constant is written with the digits of the 64-bit pattern under OUTRADIX 10 (the generator keeps these values below 2^63)",
                        "data statements: DB on the Z80 target lays down the characters of a string constant unchanged (no CHARSET); used as a second observation channel for constants",
+                       "READING: 'another variant of this notation for some targets is to leave away the closing apostrophe' - the targets are H8/300, H8/500, NS32000 and SC/MP "
+                       "(the manual does not list them); there an open IBM constant ends where its digits end",
+                       "constants inside formulas are observed through SET + MESSAGE (symbol names with an underscore, so that no RADIX reads them as numbers) and through the bytes of "
+                       "DB / DC.B / FCB statements; only digit strings of the RADIX base are generated as unmarked constants (a digit outside the base makes the text a float constant)",
                        "a failing formula is reported through its minimal failing subformulas (no proper subformula fails); a failure above a failing subformula is attributed to that subformula",
                        "float texts printed by asl are trusted to 100 units of the last significant digit when 12+ digits are printed (FloatString shortens to 18 characters), else to 1e-14 relative"]
     return common.conclude(res, proof_problems, spec_fail, corr_fail, n_eval)
@@ -1180,6 +1196,8 @@ def run(args):
 def replay(args):
     d = json.load(open(args.replay))
     print(json.dumps({k: (v if len(str(v)) < 2000 else str(v)[:2000] + "...") for k, v in d.items()}, indent=1))
+    if d.get("quote_source"):
+        return c08_quote.replay(_sys.modules[__name__], d)
     if d.get("cpu") == "z80" and str(d.get("text", "")).startswith("db "):
         bdir = common.repo_build("hooks")
         with common.Workdir("c08r") as wd:
